@@ -48,6 +48,23 @@ class Ob:
         return 'Ob()'
 
 
+class Box:
+    """a CLASS as target: subscriptable through __class_getitem__ only, callable (instantiation), with class attributes"""
+    x = 3
+    lst = [4, 5]
+
+    def __class_getitem__(cls, item):
+        return ('Box[]', item)
+
+    def __repr__(self):
+        return 'Box()'
+
+    def __eq__(self, other):
+        return type(other) is Box
+
+    __hash__ = None
+
+
 class CallableOb(Ob):
     """the target itself can be called; one of its attributes is None (calling THAT must fail as in Python)"""
     zz = None
@@ -74,6 +91,8 @@ def mk_target(name):
         return Ob()
     if name == 'callable':
         return CallableOb()
+    if name == 'class':
+        return Box
     if name == 'dictsub':
         return Lenient({'a': 2, 'l': [10, 11, 12], 0: 'zero', 'f': Fn('f')})
     raise ValueError(name)
@@ -94,7 +113,7 @@ class Lenient(dict):
         return ('missing', key)
 
 
-TARGETS = ['int', 'float', 'str', 'list', 'dict', 'obj', 'dictsub', 'callable']
+TARGETS = ['int', 'float', 'str', 'list', 'dict', 'obj', 'dictsub', 'callable', 'class']
 
 # argument terms: {'lit': v} | {'T': ops} | {'spec': path} | {'list': [...]} | {'tuple': [...]} | {'slice': [a,b,c]}
 LIT = lambda v: {'lit': v}
@@ -626,10 +645,54 @@ def run_from_target(case):
     return R(None, position, nontrivial=True, steps=1, tags={vkind, position})
 
 
+# ---------------------------------------------------------------------------
+# ONE nested-T object with a side effect, used as argument of several operations: it is evaluated for every operation it appears in
+
+def stateful_target():
+    return {'grid': [[10, 11], [20, 21]], 'idx': [1, 0], 'zero': 0, 'stack': [5, 7, 9], 'f': Fn('f'), 'one': 1}
+
+
+def stateful_menu():
+    def pop(key):
+        return T[key].pop()
+    P = lambda t, key: t[key].pop()
+    return {
+        'index-twice': (lambda n: T['grid'][n][n], 'idx', lambda t: t['grid'][P(t, 'idx')][P(t, 'idx')]),
+        'operand-twice': (lambda n: (T['zero'] + n) * n, 'stack', lambda t: (t['zero'] + P(t, 'stack')) * P(t, 'stack')),
+        'operand-three-times': (lambda n: T['zero'] + n + n + n, 'stack', lambda t: t['zero'] + P(t, 'stack') + P(t, 'stack') + P(t, 'stack')),
+        'index-then-operand': (lambda n: T['grid'][n][0] + n, 'idx', lambda t: t['grid'][P(t, 'idx')][0] + P(t, 'idx')),
+        'call-args-twice': (lambda n: T['f'](n, n), 'stack', lambda t: t['f'](P(t, 'stack'), P(t, 'stack'))),
+        'call-then-index': (lambda n: T['f'](n)[1][0] + n, 'stack', lambda t: t['f'](P(t, 'stack'))[1][0] + P(t, 'stack')),
+        'two-calls': (lambda n: T['f'](n)[1] + T['f'](n)[1], 'stack', None),       # two separate chains are operands of one +: left chain first
+        'pure-twice': (lambda n: T['grid'][T['one']][T['one']], 'idx', lambda t: t['grid'][1][1]),
+    }
+
+
+def run_stateful(name):
+    mk, key, ref = stateful_menu()[name]
+    shared = T[key].pop()            # ONE object
+    spec = mk(shared)
+    t, rt = stateful_target(), stateful_target()
+    if ref is None:
+        want = rt['f'](rt['stack'].pop())[1] + rt['f'](rt['stack'].pop())[1]
+    else:
+        want = ref(rt)
+    try:
+        got = glom(t, spec)
+    except Exception as e:
+        return R({'expected': repr(want), 'observed': 'raised %r' % (e,), 'expr': repr(spec)}, name)
+    if got != want or t[key] != rt[key]:
+        return R({'expected': '%r, %s left as %r' % (want, key, rt[key]), 'observed': '%r, %s left as %r' % (got, key, t[key]), 'expr': repr(spec)}, name)
+    return R(None, name, nontrivial=True, steps=3, tags={name})
+
+
 def subs(tier, only=None):
     from ..engine import fast_tracebacks
     fast_tracebacks()
-    return [Sub('arguments-from-target', [[v, p] for v in target_values() for p in FROM_TARGET_POSITIONS], run_from_target,
+    return [Sub('stateful-operands', sorted(stateful_menu()), run_stateful,
+                rule='fixed menu: ONE nested-T object with a side effect (.pop()) used as index / operand / call argument of several operations of one chain, '
+                     'against the plain Python expression (one evaluation per occurrence, left to right)', min_nontrivial=8, min_outcomes=8),
+            Sub('arguments-from-target', [[v, p] for v in target_values() for p in FROM_TARGET_POSITIONS], run_from_target,
                 rule='case = (kind of value stored in the target - containers, spec objects, plain objects; position of the nested T that fetches it: call / '
                      'keyword / inside a list or dict argument / index / method / operand): the value is evaluated once, the operation receives that very object',
                 min_nontrivial=100, min_outcomes=6, required_tags=['list', 'T-object', 'call-arg', 'index']),
